@@ -232,9 +232,30 @@ let op_cli (args : str list) : str list =
         S.concat "," (List.map (fun c -> string_of_int (int_of_n c)) o.coded) ]
   | _ -> ["bad-args"]
 
+(* analyzer pieces: "unique n,n,n" -> number of reports; "subrange neg lo neg hi" -> 0/1;
+   "reasm K:name,K:name,..." (K in T type, X postfix, P pou) -> ok | dup *)
+let op_rule (args : str list) : str list =
+  match args with
+  | ["unique"; l] ->
+      let ns = if l = "" || l = "-" then [] else List.map (fun x -> n_of_int (int_of_string x)) (S.split_on_char ',' l) in
+      [ string_of_int (List.length (rule_unique ns)) ]
+  | ["subrange"; nl; lo; nh; hi] ->
+      [ dec_of_n (rule_subrange (nl = "1", pos_of_dec lo) (nh = "1", pos_of_dec hi)) ]
+  | ["reasm"; l] ->
+      let ds = List.mapi (fun i it ->
+        match S.split_on_char ':' it with
+        | [k; nm] -> { d_kind = (match k with "T" -> DkType | "X" -> DkPostfix | _ -> DkPou);
+                       d_name = n_of_int (int_of_string nm); d_body = n_of_int i }
+        | _ -> failwith "bad decl") (if l = "" || l = "-" then [] else S.split_on_char ',' l) in
+      let sorted = List.sort_uniq compare (List.map (fun d -> int_of_n d.d_name) ds) in
+      (match reassemble (List.map n_of_int sorted) ds with
+       | Ok out -> [ "ok"; string_of_int (List.length out) ]
+       | _ -> [ "dup" ])
+  | _ -> ["bad-args"]
+
 let ops : (str * (str list -> str list)) list ref =
   ref [ ("lex", op_lex); ("semtok", op_semtok); ("decode", op_decode); ("lit", op_lit); ("cycle", op_cycle);
-        ("lsp", op_lsp); ("cli", op_cli) ]
+        ("lsp", op_lsp); ("cli", op_cli); ("rule", op_rule) ]
 
 
 let () =
